@@ -93,6 +93,42 @@ def key_text(v):
     return json.dumps(v[1:], default=lambda b: b.hex() if isinstance(b, bytes) else str(b), sort_keys=True)
 
 
+def gen_minimal(c, t, depth=0):
+    """The 'emptiest' value of a type: absent optionals, empty collections / binaries / strings, zeros, first enum value,
+    first union variant. Drawn once per type besides the random values, so that everything that treats emptiness
+    specially (skip_serializing_if, defaults) is exercised at every seed."""
+    k = t["type"]
+    if k == "primitive":
+        p = t["primitive"]
+        return {"STRING": ("str", ""), "INTEGER": ("int", 0), "SAFELONG": ("long", 0), "DOUBLE": ("dbl", 0.0), "BOOLEAN": ("bool", False), "BINARY": ("bin", b""),
+                "ANY": ("any", 0)}.get(p) or gen_scalar(c, p)
+    if k == "external":
+        return gen_minimal(c, t["external"]["fallback"], depth)
+    if k == "optional":
+        return ("opt", None)
+    if k in ("list", "set"):
+        return (k, [])
+    if k == "map":
+        return ("map", [])
+    d = c.tdef(t)
+    if depth > 12:
+        raise NoValue(d.name)
+    if d.kind == "alias":
+        return ("alias", d.name, gen_minimal(c, d.alias, depth + 1))
+    if d.kind == "enum":
+        return ("enum", d.values[0])
+    if d.kind == "object":
+        return ("obj", d.name, [(fn, gen_minimal(c, ft, depth + 1)) for (fn, ft, _) in d.fields])
+    if not d.fields:
+        raise NoValue(d.name)
+    for fn, ft, _ in d.fields:
+        try:
+            return ("union", d.name, fn, gen_minimal(c, ft, depth + 1))
+        except NoValue:
+            continue
+    raise NoValue(d.name)
+
+
 def gen_value(c, t, depth=0):
     r = c.r
     k = t["type"]
@@ -619,6 +655,8 @@ def fault_sites(c, v, t, path=()):
             # two *undeclared* names that disagree, in both member orders
             yield (path, "replace", "{\"type\":\"zzMystery\",\"zzEnigma\":{\"a\":1}}", "union-type-member-mismatch/undeclared")
             yield (path, "replace", "{\"zzEnigma\":{\"a\":1},\"type\":\"zzMystery\"}", "union-type-member-mismatch/undeclared")
+            # an undeclared variant with a third member (member names in sorted order, as a map-backed document holds them)
+            yield (path, "replace", "{\"type\":\"zzMystery\",\"zzMystery\":{\"a\":1},\"zzzExtra\":2}", "union-extra-member/undeclared")
         if v[2] is None:
             return
         for txt in ["5", "\"x\"", "[1]"]:
